@@ -689,16 +689,29 @@ class Executor:
                 return v
             if tag == 'ZA':
                 return ('ZA', cid(v[1]), v[2], v[3], v[4])
-            if tag == 'A' and len(v[1]) > 4096:
-                # large buffers: canonical form memoised by identity of the cell tuple
-                ent = self._bigcanon.get(id(v[1]))
-                if ent is not None and ent[0] is v[1] and ent[2] == loose:
-                    return ent[1]
-                r = ('A', tuple([cv(x) for x in v[1]]))
-                if len(self._bigcanon) > 64:
-                    self._bigcanon.clear()
-                self._bigcanon[id(v[1])] = (v[1], r, loose)
-                return r
+            if tag == 'A' and len(v[1]) > 48:
+                # buffers of scalars: the canonical form does not depend on the object renaming, so it is
+                # memoised by identity of the (immutable) cell tuple
+                cells = v[1]
+                ent = self._bigcanon.get((id(cells), loose))
+                if ent is not None and ent[0] is cells:
+                    if ent[1] is not None:
+                        return ent[1]
+                else:
+                    flat = True
+                    for x in cells:
+                        if x.__class__ is tuple:
+                            flat = False
+                            break
+                    if flat:
+                        r = ('A', tuple([('?', x.w) if x.__class__ is Term else x for x in cells])) if loose else v
+                    else:
+                        r = None
+                    if len(self._bigcanon) > 2048:
+                        self._bigcanon.clear()
+                    self._bigcanon[(id(cells), loose)] = (cells, r)
+                    if r is not None:
+                        return r
             if tag == 'T' or tag == 'A' or tag == 'U':
                 return (tag, tuple([cv(x) for x in v[1]]))
             if tag == 'I':
